@@ -88,3 +88,22 @@ prop("C13",
                 "itself; documented preconditions (keyed-only ops in keyed mode, |key|+|id|+1 <= 136) are respected by the generator.",
      technique="runtime differential monitor against an independent reference implementation (bounded-exhaustive + random programs), canaries",
      assumptions=["crypto/sha3 and the XKCP transcript anchor the reference permutation and duplex"])
+
+prop("C12",
+     level="exploration",
+     parts=[{"engine": "kravatte", "checkptr": True}],
+     floor={"quick": 5000, "thorough": 100000},
+     rule="cipher.AEAD from kravatte.NewSANSE and raw Kravatte.Kra/Vatte compared call by call with the harness reference: all "
+          "key lengths 0..210 (1..199 must work, >=200 refused); |P| x |A| over the block-boundary grid {0,1,31,32,33,199,200,201,"
+          "399,400,401,599,600,601,1000,4096} (+64507/65535 in thorough); multi-message sessions with tampered messages in "
+          "the middle; every single-bit flip of ct||tag and AD for |P|,|A| in a small grid (exhaustive over bit positions) and "
+          "sampled positions for long messages; every key byte flipped (all key lengths <=64 quick / <=199 thorough); six "
+          "aliasing patterns with canaries; raw Kra/Vatte with split inputs/outputs and bit-length final pieces. Non-trivial "
+          "= a call (or bit position / key byte) whose real outcome was compared; distinct by grid cell, bit index or (batch, index).",
+     level_text="Differential monitoring of Kravatte-SANSE against an independent specification-level reference (anchored on every "
+                "run to crypto/sha3 and to the repository's three XKCP transcripts), plus exhaustive single-bit tamper rejection "
+                "over sampled messages, key-byte sensitivity and aliasing monitors with canaries.",
+     level_note="Agreement is with a second implementation written from the Farfalle/Kravatte/Deck-SANSE papers; 'influences the "
+                "output' is observed as inequality only; key length 0 is outside the property's range.",
+     technique="runtime differential monitor against an independent reference implementation; exhaustive single-bit fault injection on sealed messages; canaries",
+     assumptions=["XKCP transcripts in kravatte/testdata anchor the reference"])
